@@ -45,8 +45,14 @@ func newCounterMon(v int) *counterMon {
 	m := &counterMon{c: c, ci: *(**sync.Cond)(fieldPtr(c, "valueIncreasedCond")), cd: *(**sync.Cond)(fieldPtr(c, "valueDecreasedCond"))}
 	// two subscriptions (the second one with two callbacks): all of them see every change, in subscription order
 	var order []byte
+	last := v
 	c.Subscribe(func(o, n int) {
 		m.logMu.Lock()
+		// independent oracle: the notifications form a chain of real changes ending at the current value
+		if (o != last || o == n || n != *(*int)(fieldPtr(c, "value"))) && m.bad == "" {
+			m.bad = fmt.Sprintf("notification %d>%d after the value was %d (current value %d)", o, n, last, *(*int)(fieldPtr(c, "value")))
+		}
+		last = n
 		m.log = append(m.log, fmt.Sprintf("%d>%d", o, n))
 		order = append(order[:0], 'a')
 		m.logMu.Unlock()
@@ -289,6 +295,7 @@ func (w *wmWorld) arrive(a arrival) string {
 		mid = arg
 	}
 	now := w.m.value()
+	w.dataOracles(a, before, arg)
 	for i, act := range w.actors {
 		p := w.pending[i]
 		if p == nil {
@@ -317,6 +324,48 @@ func (w *wmWorld) arrive(a arrival) string {
 	}
 
 	return w.obs()
+}
+
+// dataOracles: independent of the model.  Counter: Set returns the value it replaced, Update the value it installed
+// (calls are issued at quiescence, so the value before the call is known).  Stack: at quiescence the elements taken so
+// far are exactly the oldest ones (ids 0..k-1 for k = pushes - size): elements leave in push order, each exactly once.
+func (w *wmWorld) dataOracles(a arrival, before, arg int) {
+	switch m := w.m.(type) {
+	case *counterMon:
+		if w.actors[a.t].state.Load() != stIdle || len(w.out[a.t]) == 0 {
+			return
+		}
+		got := w.out[a.t][len(w.out[a.t])-1]
+		if a.op == "set" && got != before {
+			w.r.Fail("return-value", fmt.Sprintf("Counter.Set(%d) returned %d, the value before the call was %d", arg, got, before),
+				sig("api", "Counter.Set", "oracle", "return-value"))
+		}
+		if a.op == "add" && got != before+arg {
+			w.r.Fail("return-value", fmt.Sprintf("Counter.Update(%d) returned %d, the value before the call was %d", arg, got, before),
+				sig("api", "Counter.Update", "oracle", "return-value"))
+		}
+	case *stackMon:
+		if busyCount(w.actors) != 0 && w.m.waiters() != busyCount(w.actors) {
+			return
+		}
+		k := m.next - w.m.value()
+		seen := map[int]int{}
+		total := 0
+		for _, o := range w.out {
+			for _, x := range o {
+				seen[x]++
+				total++
+			}
+		}
+		ok := total == k
+		for x := 0; x < k && ok; x++ {
+			ok = seen[x] == 1
+		}
+		if !ok {
+			w.r.Fail("stack-fifo", fmt.Sprintf("Stack: %d elements pushed, size %d, but the elements taken are %v (per goroutine) instead of exactly 0..%d", m.next, w.m.value(), w.out, k-1),
+				sig("api", "Stack.Pop", "oracle", "not-the-oldest-elements"))
+		}
+	}
 }
 
 func randomWM(r *hx.Run, rng *hx.Rng, sub uint64) {
